@@ -305,21 +305,33 @@ Proof.
 Qed.
 Print Assumptions C20_tzif_lookup.
 
-(* The reader reads back what an RFC 8536 writer without leap seconds wrote ([encode_v1] /
-   [encode_v2]: header, six counts, transition times of 4 / 8 bytes, type indices, ttinfo
-   entries, abbreviation characters, standard/wall and UT/local indicators, footer), for EVERY
-   table whose values fit the format ([encodable]), any abbreviation / indicator / footer bytes:
-   the 32-bit data of a file whose version byte is not '2' (version 1, and -- as the source
-   documents -- versions 3 and 4 as well), the 64-bit data of a version-2 file whatever its
-   32-bit half holds.  `6 * typecnt` of the first header is computed in int by the C++. *)
+(* The reader reads back what an RFC 8536 writer without leap seconds wrote ([encode_v1_g] /
+   [encode_v2_g]: header, six counts, transition times of 4 / 8 bytes, type indices, ttinfo
+   entries, designation (abbreviation) characters, standard/wall and UT/local indicators, footer),
+   for EVERY table whose values fit the format ([encodable]), ANY isdst byte and ANY designation
+   index byte in each ttinfo entry ([tts]: one pair per local time type -- the reader stores them,
+   the conversions never look at them), any designation / indicator / footer bytes: the 32-bit
+   data of a file whose version byte is not '2' (version 1, and -- as the source documents --
+   versions 3 and 4 as well), the 64-bit data of a version-2 file whatever its 32-bit half holds.
+   `6 * typecnt` of the first header is computed in int by the C++.  Every shipped DST zone is such
+   a file (isdst = 1, designation index > 0 on some type).  Last two conjuncts: the writer
+   [encode_v1] / [encode_v2] of the examples (isdst = 0, index 0 everywhere) is the special case
+   [tts_zero]. *)
 Theorem C20_tzif_reads_rfc8536 :
-  (forall version tb abbr isstd isut tail, version <> x32 -> encodable 4 tb abbr isstd isut ->
-     tzif_parse (encode_v1 version tb abbr isstd isut tail) = TzOk tb) /\
+  (forall version tb tts abbr isstd isut tail, version <> x32 -> encodable 4 tb abbr isstd isut ->
+     length tts = length (offs tb) ->
+     tzif_parse (encode_v1_g version tb tts abbr isstd isut tail) = TzOk tb) /\
+  (forall tb1 tts1 abbr1 isstd1 isut1 tb tts abbr isstd isut footer,
+     encodable 4 tb1 abbr1 isstd1 isut1 -> length tts1 = length (offs tb1) ->
+     6 * Z.of_nat (length (offs tb1)) < 2 ^ 31 ->
+     encodable 8 tb abbr isstd isut -> length tts = length (offs tb) ->
+     tzif_parse (encode_v2_g tb1 tts1 abbr1 isstd1 isut1 tb tts abbr isstd isut footer) = TzOk tb) /\
+  (forall version tb abbr isstd isut tail,
+     encode_v1 version tb abbr isstd isut tail = encode_v1_g version tb (tts_zero tb) abbr isstd isut tail) /\
   (forall tb1 abbr1 isstd1 isut1 tb abbr isstd isut footer,
-     encodable 4 tb1 abbr1 isstd1 isut1 -> 6 * Z.of_nat (length (offs tb1)) < 2 ^ 31 ->
-     encodable 8 tb abbr isstd isut ->
-     tzif_parse (encode_v2 tb1 abbr1 isstd1 isut1 tb abbr isstd isut footer) = TzOk tb).
-Proof. exact (conj parse_encode_v1 parse_encode_v2). Qed.
+     encode_v2 tb1 abbr1 isstd1 isut1 tb abbr isstd isut footer =
+     encode_v2_g tb1 (tts_zero tb1) abbr1 isstd1 isut1 tb (tts_zero tb) abbr isstd isut footer).
+Proof. exact (conj parse_encode_v1_g (conj parse_encode_v2_g (conj encode_v1_zero encode_v2_zero))). Qed.
 Print Assumptions C20_tzif_reads_rfc8536.
 
 (* non-vacuity: a version-2 file with an empty 32-bit half and two transitions in the 64-bit
@@ -341,6 +353,31 @@ Proof.
     repeat split; auto; try (cbn; lia);
       repeat constructor; unfold signed_range; cbn; lia.
   - vm_compute. repeat split; reflexivity.
+Qed.
+
+(* non-vacuity with a DST-like file: two local time types, LMT (isdst 0, designation index 0) and
+   CEST (isdst 1, designation index 4), designation table "LMT\0CEST\0", both indicator arrays
+   present; as version-1 file and as 64-bit half of a version-2 file whose 32-bit half carries
+   other pairs.  The hypotheses hold, the reader returns the table, and the file is NOT one the
+   all-zero writer can produce. *)
+Example C20_tzif_dst_nonvacuous :
+  let tb := mkTz [mkTr 1000000 1; mkTr 5000000000 0; mkTr 5010000000 1] [3208; 7200] in
+  let tb1 := mkTz [mkTr 1000000 1] [3208; 7200] in
+  let tts := [(x00, x00); (x01, x04)] in
+  let abbr := [x4c; x4d; x54; x00; x43; x45; x53; x54; x00] in
+  let f1 := encode_v1_g x00 tb1 tts abbr [x00; x01] [x00; x00] [] in
+  let f2 := encode_v2_g tb1 [(x01, x00); (xff, x07)] abbr [] [] tb tts abbr [x00; x01] [x00; x00] [x0a; x43; x45; x54; x0a] in
+  encodable 4 tb1 abbr [x00; x01] [x00; x00] /\ encodable 4 tb1 abbr [] [] /\
+  encodable 8 tb abbr [x00; x01] [x00; x00] /\ length tts = length (offs tb) /\
+  tzif_parse f1 = TzOk tb1 /\ tzif_parse f2 = TzOk tb /\ wf tb = true /\
+  firstn 6 (skipn 55 f1) = [x00; x00; x1c; x20; x01; x04] /\
+  f1 <> encode_v1 x00 tb1 abbr [x00; x01] [x00; x00] [].
+Proof.
+  cbv zeta. split; [|split; [|split]].
+  1-3: unfold encodable; cbn [trans offs length tutc tidx];
+    repeat split; auto; try (cbn; lia);
+    repeat constructor; unfold signed_range; cbn; lia.
+  vm_compute. repeat split; try reflexivity. discriminate.
 Qed.
 
 (* ------------------------------------------------------------------ text and byte order *)
@@ -400,22 +437,29 @@ Print Assumptions C20_timestamp_arith.
 (* Timestamp::addTime's `static_cast<int64_t>(seconds * kMicroSecondsPerSecond)` in IEEE-754 binary64
    (Flocq: round to nearest-even of the real product, then truncation; the factor is the GENERATED
    constant).  The microsecond delta is exact -- the truncation of the exact product, nothing rounded --
-   whenever the significand of [seconds] times 5^6 fits 53 bits: every double m * 2^e with
-   |m| * 15625 < 2^53, in particular every whole number of seconds up to 576 460 752 303 and every n / 2^k
-   in that range; the bound is sharp for whole seconds (576 460 752 305 s is rounded).  Everything else
-   is left to the differential run against the FPU.  Depends on the axioms of Coq's Reals. *)
+   whenever the significand of [seconds] times 5^6 fits 53 bits AND the truncated product is an
+   int64_t: every double m * 2^e with |m| * 15625 < 2^53 whose product with 10^6 lies inside int64
+   (hypothesis -2^63 <= Ztrunc (s * 10^6) < 2^63: outside it the C++ cast is undefined and [Ztrunc]
+   would not stand for it; the hypothesis also forces |s| < 2^44, so s and the product are finite
+   doubles although the Flocq format used is unbounded above), in particular every whole number of
+   seconds up to 576 460 752 303 and every n / 2^k in that range (both inside int64, stated); the bound
+   is sharp for whole seconds (576 460 752 305 s is rounded).  Everything else is left to the
+   differential run against the FPU.  Depends on the axioms of Coq's Reals. *)
 Theorem C20_addtime_exactness :
   (forall m e, Z.abs m * 15625 < 2 ^ 53 -> -1080 <= e ->
      let s := F2R (Float radix2 m e) in
+     - 2 ^ 63 <= Ztrunc (s * 1000000) < 2 ^ 63 ->
      rnd64 (s * IZR Timestamp_addTime_factor) = (s * IZR Timestamp_addTime_factor)%R /\
-     addTime_delta s = Ztrunc (s * 1000000)) /\
+     addTime_delta s = Ztrunc (s * 1000000) /\ - 2 ^ 63 <= addTime_delta s < 2 ^ 63) /\
   (forall n, Z.abs n <= 576460752303 ->
-     addTime_delta (IZR n) = n * 1000000 /\ forall t, addTime_value t (IZR n) = t + n * 1000000) /\
+     addTime_delta (IZR n) = n * 1000000 /\ - 2 ^ 63 <= n * 1000000 < 2 ^ 63 /\
+     forall t, addTime_value t (IZR n) = t + n * 1000000) /\
   (forall n k, Z.abs n * 15625 < 2 ^ 53 -> 0 <= k <= 1080 ->
-     addTime_delta (IZR n / IZR (2 ^ k)) = Ztrunc (IZR n / IZR (2 ^ k) * 1000000)) /\
+     addTime_delta (IZR n / IZR (2 ^ k)) = Ztrunc (IZR n / IZR (2 ^ k) * 1000000) /\
+     - 2 ^ 63 <= addTime_delta (IZR n / IZR (2 ^ k)) < 2 ^ 63) /\
   rnd64 (IZR 576460752305 * IZR Timestamp_addTime_factor) <> (IZR 576460752305 * IZR Timestamp_addTime_factor)%R.
 Proof.
-  exact (conj addTime_product_exact (conj addTime_whole_seconds (conj addTime_binary_fraction addTime_rounding_witness))).
+  exact (conj addTime_product_exact_int64 (conj addTime_whole_seconds_int64 (conj addTime_binary_fraction_int64 addTime_rounding_witness))).
 Qed.
 Print Assumptions C20_addtime_exactness.
 
